@@ -177,7 +177,7 @@ class AccountingSpec(BfsSpec):
         return State(self.meter)
 
     def actions(self):
-        return [["place", v[0]] for v in self.vals] + [["plus"], ["remove_last"]]
+        return [["place", v[0]] for v in self.vals] + [["plus"], ["remove_last"], ["empty"]]
 
     def step(self, st, act, check=True):
         S = engine.S
@@ -196,6 +196,15 @@ class AccountingSpec(BfsSpec):
             st.ref.pop()
             if check and abs(ret - float(st.ref.total)) > 1e-9:
                 S.problem("remove_last_entry() return", str(st.ref.total), ret)
+        elif act[0] == "empty":
+            # Bar.empty(): "remove all the NoteContainers" -- the same as removing the last entry until none is left
+            if not st.ref.entries:
+                if check:
+                    S.count("empty_on_empty_skipped")
+                return
+            st.bar.empty()
+            while st.ref.entries:
+                st.ref.pop()
         else:
             raise engine.HarnessError("bad action %r" % (act,))
 
@@ -288,6 +297,13 @@ class ContentSpec(BfsSpec):
             ref.entries[i][3] = merge_notes(ref.entries[i][3], expect)
             if check:
                 self._only_entry_changed(S, others_before, snapshot(bar), i, "place_notes_at(%s, beat of entry %d)" % (act[2], i))
+                if isinstance(content, NoteContainer):
+                    # the notes were *added to* the entry: what the caller does to its own container afterwards is its business
+                    held = snapshot(bar)
+                    content.add_note(Note("B", 7))
+                    content.notes.reverse()
+                    if snapshot(bar) != held:
+                        S.problem("place_notes_at(%s, beat of entry %d), then the caller changes its own container" % (act[2], i), held, snapshot(bar))
         elif act[0] == "remove_last":
             if not ref.entries:
                 return
@@ -602,6 +618,73 @@ def run_meter_history(case):
     S.outcome((cur, want_value))
 
 
+def run_remeter(case):
+    """case = [initial meter index, quarter notes placed, [meter index, ...]]: a bar that already holds entries gets other
+    meters (also shorter ones than what it holds): set_meter sets the meter and the length and nothing else; afterwards
+    '+' is accepted exactly when the exact total allows it, and removing what was placed restores the cursor."""
+    S = engine.S
+    first, k, seq = case
+    m0 = METER_SEQ[first]
+    b = Bar("C", m0)
+    placed = 0
+    for j in range(k):
+        if b.place_notes(Note("C", 3 + j % 3), 4):
+            placed += 1
+    total = Fraction(placed, 4)
+    cur = m0
+    S.trans(k + 1)
+    for i in seq:
+        m = METER_SEQ[i]
+        before = snapshot(b)
+        try:
+            b.set_meter(m)
+            ok = True
+        except Exception:                                        # noqa -- which meters are refused is the set_meter clause's subject
+            ok = False
+        S.trans(1)
+        site = "Bar('C', %r) holding %d quarter notes, set_meter %r" % (m0, placed, [METER_SEQ[x] for x in seq[:seq.index(i) + 1]])
+        after = snapshot(b)
+        if not ok:
+            if after != before:
+                S.problem(site + " (refused): bar afterwards", before, after)
+                return
+            continue
+        cur = m
+        want_len = 0.0 if cur == (0, 0) else cur[0] / float(cur[1])
+        if after[0] != before[0]:
+            S.problem(site + ": entries", before[0], after[0])
+            return
+        if tuple(b.meter) != cur or abs(b.length - want_len) > 1e-12:
+            S.problem(site + ": meter / length", [cur, want_len], [b.meter, b.length])
+            return
+        if abs(b.current_beat - float(total)) > 1e-12:
+            S.problem(site + ": current_beat", float(total), b.current_beat)
+            return
+        if abs((b.current_beat + b.space_left()) - want_len) > 1e-9:
+            S.problem(site + ": current_beat + space_left()", want_len, b.current_beat + b.space_left())
+            return
+        # one more beat of the meter in force
+        unit = 4 if cur == (0, 0) else cur[1]
+        fits = cur == (0, 0) or total + Fraction(1, unit) <= Fraction(cur[0], cur[1])
+        n_before = len(b.bar)
+        r = b.place_notes(Note("G", 5), unit)
+        S.trans(1)
+        if bool(r) is not fits or len(b.bar) != n_before + (1 if fits else 0):
+            S.problem(site + ", then one more beat (1/%d): accepted" % unit, fits, [r, len(b.bar) - n_before])
+            return
+        if fits:
+            start = b.bar[-1][0]
+            if abs(start - float(total)) > 1e-12:
+                S.problem(site + ", then one more beat: its start beat", float(total), start)
+                return
+            b.remove_last_entry()
+            if abs(b.current_beat - float(total)) > 1e-12 or len(b.bar) != n_before:
+                S.problem(site + ", one more beat placed and removed again: current_beat", float(total), b.current_beat)
+                return
+    S.count("remeter_histories")
+    S.outcome((m0, placed, cur))
+
+
 _SPECS = {}
 
 
@@ -626,6 +709,7 @@ CLAUSES = {
     "homogeneous": run_homogeneous,
     "set_meter": run_set_meter,
     "meter_history": run_meter_history,
+    "remeter": run_remeter,
     "near_full": run_near_full,
     "place_at_drift": run_place_at_drift,
     "setitem_shared": run_setitem_shared,
@@ -681,6 +765,11 @@ def explore(ctx):
         ctx.product("near_full", [(m, l) for m in nf_meters for l in FINE_LABELS], gen_near_full)
         if not only:
             ctx.guard("states with a remainder below a thousandth", ctx.counter("states_with_a_remainder_below_a_thousandth"), 50)
+    if not only or "remeter" in only:
+        nm = len(METER_SEQ)
+        firsts = [f for f in range(nm) if METER_SEQ[f] not in ((3, 5),)]
+        ctx.bound("remeter", {"meters": METER_SEQ, "quarter notes placed first": "0..6", "sequences": "up to 3 set_meter calls"})
+        ctx.product("remeter", firsts, lambda f: ([f, k, list(seq)] for k in range(0, 7) for n in range(1, 4) for seq in itertools.product(range(nm), repeat=n)))
     if not only or "meter_history" in only:
         nm = len(METER_SEQ)
         ctx.bound("meter_history", {"meters": METER_SEQ, "sequences": "initial meter + up to 3 set_meter calls, then '+'"})
